@@ -1,7 +1,7 @@
 CONSTANTS
   Tier = "thorough"
   Export = TRUE
-  Fams = {"short6", "short7", "cor6", "cor7", "heur6", "comp6", "comp7", "max6", "max7"}
+  Fams = {"short6", "short7", "cor6", "cor7", "heur6", "comp6", "comp7", "max6", "max7", "close"}
   SliceLo = 0
   SliceHi = 1023
 INIT Init
